@@ -477,6 +477,7 @@ func (e *Engine) dispatch(s *State, f *Frame, fn *ssa.Function, args []Value, bi
 			return nil
 		}
 		e.access(s, id, true, site)
+		o.Epoch++
 		sl := args[1].(*SliceV)
 		o.B = Concat2(o.B, sliceContent(s, sl))
 		set(TupleV{sl.Len, nilErr})
@@ -487,6 +488,7 @@ func (e *Engine) dispatch(s *State, f *Frame, fn *ssa.Function, args []Value, bi
 			return nil
 		}
 		e.access(s, id, true, site)
+		o.Epoch++
 		sv := args[1].(*StringV)
 		o.B = Concat2(o.B, sv.B)
 		set(TupleV{sv.B.Len, nilErr})
@@ -497,6 +499,7 @@ func (e *Engine) dispatch(s *State, f *Frame, fn *ssa.Function, args []Value, bi
 			return nil
 		}
 		e.access(s, id, true, site)
+		o.Epoch++
 		o.B = Concat2(o.B, VecBytes([]*Term{args[1].(*Term)}))
 		set(nilErr)
 	case "(*bytes.Buffer).WriteRune":
@@ -509,12 +512,14 @@ func (e *Engine) dispatch(s *State, f *Frame, fn *ssa.Function, args []Value, bi
 		r := args[1].(*Term)
 		if r.IsConst() {
 			enc := utf8Rune(r)
+			o.Epoch++
 			o.B = Concat2(o.B, enc)
 			set(TupleV{enc.Len, nilErr})
 			return nil
 		}
 		return e.forkRune(s, r, site, func(st *State, b *Bytes) {
 			ob := st.heap[id]
+			ob.Epoch++
 			ob.B = Concat2(ob.B, b)
 			setRes(st, x, TupleV{b.Len, nilErr})
 		})
@@ -539,7 +544,7 @@ func (e *Engine) dispatch(s *State, f *Frame, fn *ssa.Function, args []Value, bi
 			s.panicd = "nil *bytes.Buffer at " + site
 			return nil
 		}
-		set(&SliceV{Obj: id, Off: o.R, Len: unreadLen(o), Cap: unreadLen(o)})
+		set(&SliceV{Obj: id, Off: o.R, Len: unreadLen(o), Cap: unreadLen(o), View: id, Epoch: o.Epoch})
 	case "(*bytes.Buffer).String":
 		o, _ := bufObj(s, args[0])
 		if o == nil {
@@ -550,6 +555,7 @@ func (e *Engine) dispatch(s *State, f *Frame, fn *ssa.Function, args []Value, bi
 	case "(*bytes.Buffer).Reset":
 		o, id := bufObj(s, args[0])
 		e.access(s, id, true, site)
+		o.Epoch++
 		o.R = o.B.Len
 	case "(*bytes.Buffer).Truncate":
 		o, id := bufObj(s, args[0])
@@ -568,12 +574,15 @@ func (e *Engine) dispatch(s *State, f *Frame, fn *ssa.Function, args []Value, bi
 			return forks
 		}
 		s.allocs = append(s.allocs, AllocRec{Size: n, Site: site})
+		if ob, _ := bufObj(s, args[0]); ob != nil {
+			ob.Epoch++
+		}
 		return forks
 	case "(*bytes.Buffer).Next":
 		o, id := bufObj(s, args[0])
 		n := args[1].(*Term)
 		m := Ite(Lt(unreadLen(o), n, true), unreadLen(o), n)
-		set(&SliceV{Obj: id, Off: o.R, Len: m, Cap: m})
+		set(&SliceV{Obj: id, Off: o.R, Len: m, Cap: m, View: id, Epoch: o.Epoch})
 		o.R = Add(o.R, m)
 	case "(*bytes.Buffer).ReadByte":
 		_, id := bufObj(s, args[0])
@@ -905,6 +914,7 @@ func (e *Engine) binaryWrite(s *State, f *Frame, args []Value, x *ssa.Call, site
 				so := s.heap[v.Obj]
 				if so.Kind == kBytes {
 					e.access(s, id, true, site)
+					o.Epoch++
 					o.B = Concat2(o.B, sliceContent(s, v))
 					setRes(s, x, nilErr)
 					return nil
@@ -929,6 +939,7 @@ func (e *Engine) binaryWrite(s *State, f *Frame, args []Value, x *ssa.Call, site
 		return nil
 	}
 	e.access(s, id, true, site)
+	o.Epoch++
 	o.B = Concat2(o.B, VecBytes(bs))
 	setRes(s, x, nilErr)
 	return nil
@@ -1359,7 +1370,10 @@ func mergeValue(c *Term, a, b Value) (Value, bool) {
 		if !ok || av.Obj != bv.Obj {
 			return nil, false
 		}
-		return &SliceV{Obj: av.Obj, Off: Ite(c, av.Off, bv.Off), Len: Ite(c, av.Len, bv.Len), Cap: Ite(c, av.Cap, bv.Cap)}, true
+		if av.View != bv.View || av.Epoch != bv.Epoch {
+			return nil, false
+		}
+		return &SliceV{Obj: av.Obj, Off: Ite(c, av.Off, bv.Off), Len: Ite(c, av.Len, bv.Len), Cap: Ite(c, av.Cap, bv.Cap), View: av.View, Epoch: av.Epoch}, true
 	case *StringV:
 		bv, ok := b.(*StringV)
 		if !ok || av.Alias != bv.Alias {
@@ -1488,6 +1502,7 @@ func mergeStates(c *Term, a, b *State, nAlloc int, cb *Term) (*State, bool) {
 		case kBuffer:
 			n.B = MergeBytes(c, oa.B, ob.B)
 			n.R = Ite(c, oa.R, ob.R)
+			n.Epoch = max(oa.Epoch, ob.Epoch)
 		case kElems:
 			if len(oa.E) != len(ob.E) {
 				return nil, false
